@@ -6,6 +6,8 @@ Oracle: the side table of the reference interpretation (pmc.ref.interp rows):
 context, pushed variable, written-inverted flag.
 """
 
+import copy
+
 from pmc.domains import models as M
 from pmc.domains import trees as T
 from pmc.ref import interp as RI
@@ -81,6 +83,11 @@ def check(case, ctx):
             if got not in (True, False):
                 ctx.fail('appears_inverted did not return a bool', observed=repr(got))
                 return
+        gc = copy.deepcopy(g)      # markers equal to, not identical with, the POP singleton
+        if list(layout.node_contexts(gc)) != wctx or [bool(layout.appears_inverted(gc, r['triple'])) for r in rows] != [bool(x) for x in inv]:
+            ctx.fail(f'diagnostics differ on a deep copy of the decoded graph under {name}', expected=wctx, observed=list(layout.node_contexts(gc)))
+            return
+        ctx.transitions += 1
         if any(r['pushed'] for r in rows):
             ctx.cats['has_nested'] += 1
         if any(r['inverted'] for r in rows):
